@@ -201,6 +201,7 @@ inline bool stripeClaim(
   auto& s = state.stripes[stripeIdx];
   const IntegerT chunkSize = state.chunkSize;
   Wide prev = s.next.fetch_add(static_cast<Wide>(chunkSize), std::memory_order_relaxed);
+  DISPENSO_VERIF_POINT(::dispenso::verif::kStripeAfterClaim);
   if (prev >= s.end) {
     // Stripe exhausted before this claim. Try to be the one to retire it.
     bool expected = false;
